@@ -57,7 +57,7 @@ def run_case(c):
         putopts, putenv = ['--home-fallback'], {'HOME': '/home/u', 'TRASH_ENABLE_HOME_FALLBACK': '1'}
     W.dir(B).dir(B + '/real')
     W.file(B + '/real/tfile', 'target file\n', mode=0o600)
-    W.dir(B + '/real/tdir', mode=0o750).file(B + '/real/tdir/child', 'child\n')
+    W.dir(B + '/real/tdir', mode=0o555).file(B + '/real/tdir/child', 'child\n')          # (no write permission bits: nothing may "lend" them)
     W.file('/mnt/v2/t/tfile', 'xvol target\n')
     W.dir('/mnt/v2/t/tdir').file('/mnt/v2/t/tdir/child', 'xvol child\n')
     W.link(B + '/real/mid-file', 'tfile').link(B + '/real/mid-dir', 'tdir')
